@@ -1,6 +1,7 @@
 import FsutilModel.Model.FollowLinks
 import FsutilModel.Lex
 import FsutilModel.Lemmas.C18
+import FsutilModel.Lemmas.C18Fuel
 /-! # C18 — FollowLinks: shape of the result (sorted, prefix-free, root rule) and de-duplication -/
 namespace Fsm.C18
 open FL
@@ -65,5 +66,21 @@ theorem dedupe_none_iff_root (fixed : Bool) (l : List Path) : dedupePaths fixed 
       split
       · split <;> exact ih _ _
       · split <;> exact ih _ _
+
+/-- The transcription of the resolver recurses on a fuel argument; the code itself has none (it terminates because every link
+is recorded before it is followed). `resolveAllX` is the same run with a flag raised when the fuel runs out. When the flag
+stays down - the driver reports it for every case it answers, and a case where it is up is a broken correspondence, not an
+answer - the result is the one every larger fuel gives: the answer of the unbounded recursion. -/
+theorem model_run_is_the_unbounded_run (fixed : Bool) (l : List Ent) (paths : List Path) (fuel k : Nat)
+    (h : (resolveAllX l fuel paths).2 = false) :
+    followLinks fixed l paths (fuel + k) = followLinks fixed l paths fuel :=
+  followLinks_fuel_independent fixed l paths fuel k h
+
+/-- the flag is up when the fuel is too small (a chain of three links resolved with fuel 2), down when it suffices -/
+example :
+    let ln (p t : Path) : Ent := ⟨p, false, some t⟩
+    let l := [ln [97] [98], ln [98] [99], ln [99] [100]]
+    (resolveAllX l 2 [[97]]).2 = true ∧ (resolveAllX l 16 [[97]]).2 = false := by
+  decide
 
 end Fsm.C18
